@@ -2,7 +2,7 @@
 use std::path::PathBuf;
 
 use statime_verif_harness::{out::Out, prng::Prng};
-use statime_verif_harness_linux::metrics;
+use statime_verif_harness_linux::{metrics, wedge};
 
 fn main() {
     let args: Vec<String> = std::env::args().collect();
@@ -10,6 +10,7 @@ fn main() {
         let work = PathBuf::from("/dev/shm");
         match args[2].as_str() {
             "metrics" => metrics::replay(&PathBuf::from(&args[3]), &work),
+            "exporter" => wedge::replay(&PathBuf::from(&args[3]), &work),
             _ => panic!("unknown stream"),
         }
         return;
@@ -42,6 +43,7 @@ fn main() {
     let mut out = Out::new(&dir, &stream);
     match stream.as_str() {
         "metrics" => metrics::generate(&mut out, &rng, thorough, &dir),
+        "exporter" => wedge::generate(&mut out, &rng, thorough, &dir),
         _ => panic!("unknown stream {stream}"),
     }
     out.finish();
